@@ -180,9 +180,13 @@ def run(ctx):
                         esc = type(x).__name__
                     rows.append((version, "msg", frame2, v2, list(rec), esc))
                     owns.append(OWN)
-            for k in range(ctx.n(40, 300)):
+            for k in range(81 + ctx.n(40, 300)):
                 v = dict(nwk=rng.getrandbits(16), ieee=[rng.getrandbits(8) for _ in range(8)], status=rng.choice([0, 1, 2, 3, 4, rng.randrange(256)]),
                          decision=rng.choice([0, 1, 2, 3, rng.randrange(256)]), parent=rng.getrandbits(16))
+                if k < 81:
+                    # the whole grid of small status x decision values first (named members and the unnamed ones next
+                    # to them: a decision byte outside the named ones is not a denial)
+                    v["status"], v["decision"] = k // 9, k % 9
                 if rng.random() < 0.4:
                     # vendors whose joins make the application override the manufacturer code for a while
                     # (IEEE prefixes 54:EF:44 / 04:CF:8C; the frame carries the address low byte first); joins of
